@@ -8,7 +8,7 @@ import treeutil as tu
 from common import time_limit
 
 ID = "C14"
-GEN_DEPENDS = []
+GEN_DEPENDS = ["C14Kernels"]
 RULE = ("(pdm) random rose trees (1-12 leaves quick, up to 40 thorough; polytomies, unary nodes, fixed families, None/zero/dyadic lengths, "
         "any rooting flag, namespaces with extra members and shuffled bits): every ordered leaf pair x {patristic, edge count, mrca}, "
         "distances(), sums, mean-pairwise / nearest-taxon under random taxon filters, weighting and normalisation, treemeasure.patristic_distance, "
@@ -18,11 +18,20 @@ RULE = ("(pdm) random rose trees (1-12 leaves quick, up to 40 thorough; polytomi
         "lengths (binary and polytomous; 40% with near-ties: internal edges of 2^-33 … 2^-20 next to heights of order 1 under a random "
         "taxon-to-leaf mapping, so the true minimum beats the runner-up by < 1e-9 relative yet by many ulps), the same read back from CSV, unit-length (edge count) matrices, and arbitrary dyadic matrices "
         "(model comparison only); for every NJ / UPGMA run the path lengths in the returned tree (independent walk) are compared with the model's "
-        "NT.dist of its own result (op `ntdist`) and, for tree-generated input, with the input matrix; thorough adds every shape <= 6 leaves. Non-trivial = >= 4 leaves.")
+        "NT.dist of its own result (op `ntdist`) and, for tree-generated input, with the input matrix; half of the NJ / UPGMA runs go through a "
+        "tracing tree class whose node_factory records the loop state at the head of every pass (pool order, _nj_xsub of every member; "
+        "_upgma_distance_from_tip, cluster size and the halved minimum), compared with the model ops `njtrace` / `uptrace`; "
+        "thorough adds every shape <= 6 leaves. When an obligation breaks or model and code disagree, `search` runs up to 2500 (thorough 40000) "
+        "traced reconstruction cases on 2-12 taxa. Non-trivial = >= 4 leaves.")
 MODELLED_NOT_VERIFIED = [
     "C14: the Lean functions walk/pairNode/mirror/lookup/meanPairwise/meanNearest, scanT/scanL/tail/treeMrca/collapseBasal, njJoin/njPick/njRun, "
     "upJoin/upPick/upRun are hand-written from PhylogeneticDistanceMatrix.compile_from_tree/_mirror_lookups/_calculate_mean_*, Tree.mrca, "
-    "nj_tree, upgma_tree; tied to the code by the per-case comparison",
+    "nj_tree, upgma_tree; tied to the code by the per-case comparison (final trees, path lengths, and the traced loop states of NJ / UPGMA). "
+    "The arithmetic kernels of nj_tree / upgma_tree (Q value, reduced distance, row-sum update, both branch-length formulas and their "
+    "threshold, loop guard, strictness of both minimum searches, UPGMA edge lengths / height / size-weighted average) are NOT copied by hand "
+    "only: harness/gen/c14kernels.py regenerates them from the source on every run (Gen/C14Kernels.lean) and gen_njQ, gen_njNewDist, "
+    "gen_njJoin_d, gen_njJoin_x, gen_njLengths, gen_njContinue, gen_pick_strict, gen_upNewDist, gen_upJoin_sub, gen_upJoin_h prove the model's "
+    "formulas equal to them over every field; pool iteration order, child order and the pdm / mrca walks stay hand-written",
     "C14: the theorems are proved for every commutative monoid / field of numbers and transported to the type the driver runs: "
     "`toRat` commutes with every `Frac` operation on fractions with non-zero denominator (Aux.toRat_add/sub/mul/div/natCast/lt), the models are "
     "natural in the number type (entries_nat, table_nat, nj_run_rel, up_run_rel), hence frac_pdm_spec, frac_pdm_lookup_spec, "
@@ -30,10 +39,13 @@ MODELLED_NOT_VERIFIED = [
     "`entries fracLen taxonKey`, `meanPairwise`/`meanNearest`, `njTree`, `upgmaTree`, `treePatristic` at `Frac`; Tree.mrca needs no arithmetic. "
     "binary64 rounding in the library is not modelled "
     "(exact comparison on dyadic inputs; means, normalised values and NJ branch lengths within 1e-9)",
-    "C14: NJ consistency (a Q-minimal pair of an additive metric with positive internal edges is a cherry) is proved for pools of <= 5 nodes only "
-    "(minQ_cherry_four, minQ_cherry_five; nj_realises_five, frac_nj_realises_five); nj_realises_of_quartet_lemma_partial reduces the general case to "
-    "the finite-metric statement MinQCherryAt N (missing for N >= 6), and there is no uniqueness theorem for additive trees, so for n >= 6 the NJ half of clause (d) is tested: executed on implementation and model for generated additive inputs and "
-    "compared with the generating tree. The UPGMA half is proved (upgma_recovers_tree)",
+    "C14: NJ consistency (a Q-minimal pair of a metric with the strict four-point condition is a cherry) is proved for every number of labels "
+    "(minQ_cherry_all, by Theory/C14Cherry.lean), hence nj_realises / nj_inverts_tree / frac_nj_realises: NJ returns a tree with exactly the input "
+    "path lengths for every additive input with positive internal edges. There is no uniqueness theorem for additive trees, so the last step of "
+    "the NJ half of clause (d) — from 'the same path lengths' to 'the same unrooted topology and edge lengths' — is tested (split sets with lengths "
+    "of result and generating tree, from-scratch walk), not proved. The UPGMA half is proved including topology (upgma_recovers_tree). The source "
+    "trees of nj_inverts_tree / upgma_recovers_tree are binary trees of the result type NT; for the library's tree type T the composition pdm -> upgma is "
+    "upgma_inverts_pdm, the composition pdm -> nj exists only in the harness",
     "C14: CSV formatting/parsing and NodeDistanceMatrix are judged by the oracle only (not modelled); treemeasure.patristic_distance is "
     "modelled (treePatristic, op `tm`) with every taxon on exactly one node (find_node is rendered as a search below the common ancestor)",
     "C14: on an unrooted tree a requested refresh collapses a basal bifurcation (encode_bipartitions default); the mrca clause is evaluated on the tree as it is after the call",
@@ -49,15 +61,23 @@ EXPLANATION = ("Theorems (Props/C14.lean), for every tree and every number type 
                "nj_rowsum_invariant, nj_lengths_formula, nj_cherry_step, nj_terminates, nj_realises_three (<= 3 taxa unconditional). At the driver's "
                "own type Frac (toRat homomorphism + naturality): frac_pdm_spec, frac_pdm_lookup_spec, frac_mean_pairwise_both, frac_mntd, "
                "frac_nj_rowsum_invariant, frac_nj_tree, frac_upgma_tree, frac_upgma_recovers_tree. "
-               "PARTIAL: nj_realises_of_cherry_picking_partial (NJ inverts the matrix IF every picked pair is a cherry: the induction over "
-               "contractions) and nj_recovers_tree_partial (one step); the cherry-picking consistency lemma for additive metrics is NOT proved, so "
-               "the NJ reconstruction clause is testing: implementation and model are executed on generated additive inputs and compared with the "
-               "generating tree. upgma_recovers_tree_partial is superseded by upgma_recovers_tree. "
-               "Last round: MinQCherryAt N states the cherry-picking lemma about finite metrics; nj_realises_of_quartet_lemma_partial reduces NJ's correctness to it "
+               "Stepping stones: nj_realises_of_cherry_picking (NJ inverts the matrix IF every picked pair is a cherry: the induction over "
+               "contractions) and nj_recovers_tree_partial (one step). upgma_recovers_tree_partial is superseded by upgma_recovers_tree. "
+               "Last round: MinQCherryAt N states the cherry-picking lemma about finite metrics; nj_realises_of_quartet_lemma reduces NJ's correctness to it "
                "(all NJ machinery discharged: nrel_quartet, qval_eq_Qfun, cherry_of_balanced); minQ_cherry_four / minQ_cherry_five prove it for pools of 4 and 5, hence "
                "nj_realises_five / frac_nj_realises_five; tree_four_point (distances of a tree with positive internal edges satisfy the strict four-point condition) gives "
-               "nj_inverts_tree_five (NJ clause about trees, <= 5 taxa) and nj_inverts_tree_partial (any n, given MinQCherryAt for pools of 6..n). Missing: MinQCherryAt N for "
-               "N >= 6 and uniqueness of additive trees.")
+               "nj_inverts_tree_five (NJ clause about trees, <= 5 taxa). "
+               "Extension round 3: minQ_cherry_all proves MinQCherryAt N for EVERY N (the neighbour-joining consistency lemma of Saitou-Nei / Studier-Keppler, "
+               "tree-free proof in Theory/C14Cherry.lean: order the other labels by where they leave the path f..g, take the smaller of the two extreme groups, "
+               "its deepest pair - or f with its only member - has a strictly smaller Q), so the former partial results are discharged: nj_realises "
+               "(NJ inverts every symmetric matrix with the strict four-point condition, any n), nj_inverts_tree (NJ on the path lengths of any binary tree with "
+               "positive internal edges returns a tree with the same path lengths, any n; replaces nj_inverts_tree_partial), frac_nj_realises (at the driver's type). "
+               "nj_realises_of_cherry_picking / nj_realises_of_quartet_lemma lost their _partial suffix: they are lemmas whose hypothesis is now discharged. "
+               "Tie A: gen_njQ, gen_njNewDist, gen_njJoin_d, gen_njJoin_x, gen_njLengths, gen_njContinue, gen_pick_strict, gen_upNewDist, gen_upJoin_sub, gen_upJoin_h "
+               "(model formulas = kernels regenerated from nj_tree / upgma_tree). nj_run_states, nj_states_inv, up_run_states: the states listed by the ops "
+               "njtrace / uptrace are the states of njRun / upRun and satisfy the row-sum invariant. "
+               "Still partial by name: nj_recovers_tree_partial, upgma_recovers_tree_partial (one-step lemmas, superseded). Missing: uniqueness of the tree "
+               "realising an additive metric (topology of the NJ result is tested, not proved).")
 
 TOL = 1e-9
 
@@ -573,6 +593,82 @@ def compare_splits(a, b, exact):
     return None
 
 
+def traced_run(dendropy, pdm, method, weighted):
+    """nj_tree / upgma_tree with a tree class whose `node_factory` records, every time a node is created, the bookkeeping attributes of
+    the nodes that carry them at that moment: inside the main loop that is the state at the head of a pass (pool in order with
+    `_nj_xsub`, resp. `_upgma_distance_from_tip` and cluster size), an intermediate observable the result tree does not show.
+    Returns (tree, [(pair picked, [(pool id, values…)])]) with pool ids as in the model: taxa 0..n-1 in pool order, joins n, n+1, …"""
+    created, snaps = [], []
+
+    class TraceTree(dendropy.Tree):
+        @classmethod
+        def node_factory(cls, **kwargs):
+            if method == "nj":
+                alive = [(nd, (nd._nj_xsub,)) for nd in created if hasattr(nd, "_nj_xsub")]
+            else:
+                alive = [(nd, (nd._upgma_distance_from_tip, len(nd._upgma_cluster))) for nd in created
+                         if hasattr(nd, "_upgma_distance_from_tip")]
+                if not all(getattr(nd, "_upgma_distances", None) for nd, _ in alive):
+                    alive = []      # still filling the pool
+            nd = super(TraceTree, cls).node_factory(**kwargs)
+            created.append(nd)
+            if alive:
+                snaps.append((nd, alive))
+            return nd
+    with time_limit(60):
+        res = (pdm.nj_tree if method == "nj" else pdm.upgma_tree)(is_weighted_edge_distances=weighted, tree_factory=TraceTree)
+    seen = set()
+    for _, alive in snaps:
+        seen.update(id(nd) for nd, _ in alive)
+    ident = {}
+    for nd in created:
+        if id(nd) in seen:
+            ident[id(nd)] = len(ident)
+    trace = []
+    for new, alive in snaps:
+        ch = new._child_nodes
+        pair = tuple(ident.get(id(c), -1) for c in ch)
+        vals = {id(nd): v for nd, v in alive}
+        extra = None
+        if method == "upgma" and len(ch) == 2 and ch[0].edge.length is not None and id(ch[0]) in vals:
+            extra = 2 * (ch[0].edge.length + vals[id(ch[0])][0])      # the minimum distance that was halved
+        trace.append((pair, extra, [(ident[id(nd)],) + tuple(v) for nd, v in alive]))
+    return res, trace
+
+
+def trace_show(trace):
+    return " ".join("%s%s;%s" % (",".join(map(str, pair)), "" if extra is None else ":" + fr(extra),
+                                 ",".join(":".join([str(row[0])] + [fr(x) if isinstance(x, float) else str(x) for x in row[1:]]) for row in rows))
+                    for pair, extra, rows in trace)
+
+
+def trace_equal(trace, model):
+    items = model.split()
+    if len(items) != len(trace):
+        return False
+    try:
+        for (pair, extra, rows), it in zip(trace, items):
+            head, body = it.split(";")
+            hp = head.split(":")
+            if tuple(int(x) for x in hp[0].split(",")) != pair:
+                return False
+            if extra is not None and (len(hp) != 2 or not close(extra, Fraction(hp[1]))):
+                return False
+            mrows = [r.split(":") for r in body.split(",")]
+            if len(mrows) != len(rows):
+                return False
+            for row, mr in zip(rows, mrows):
+                if int(mr[0]) != row[0] or len(mr) != len(row):
+                    return False
+                if not close(row[1], Fraction(mr[1])):
+                    return False
+                if len(row) > 2 and int(mr[2]) != row[2]:
+                    return False
+    except (ValueError, IndexError):
+        return False
+    return True
+
+
 def run_matrix(ctx, dendropy, pdm, case, pending, source=None, weighted=True, methods=("nj", "upgma")):
     """NJ/UPGMA on `pdm`; model comparison; oracle against the generating tree `source` = (kind, tree)"""
     taxa = list(pdm.taxon_iter())
@@ -586,8 +682,12 @@ def run_matrix(ctx, dendropy, pdm, case, pending, source=None, weighted=True, me
     for method in methods:
         if method == "upgma" and n > 5 and not (source and source[0] == "ultrametric"):
             continue    # cluster averages leave the dyadics: float ties could be broken differently from the exact model
-        with time_limit(60):
-            res = (pdm.nj_tree if method == "nj" else pdm.upgma_tree)(is_weighted_edge_distances=weighted)
+        if case.get("trace"):
+            res, trace = traced_run(dendropy, pdm, method, weighted)
+            pending.append(("%s %d %s" % ("njtrace" if method == "nj" else "uptrace", n, mwords), case, trace, "trace"))
+        else:
+            with time_limit(60):
+                res = (pdm.nj_tree if method == "nj" else pdm.upgma_tree)(is_weighted_edge_distances=weighted)
         if (res.is_rooted is not False) if method == "nj" else (res.is_rooted is not True):
             ctx.fail(method + "-rooting", "%s result has is_rooted=%r" % (method, res.is_rooted), case)
         flat = flat_impl(res, index_of)
@@ -627,7 +727,7 @@ def case_recon(ctx, dendropy, case, pending):
     tree, ids = tu.tree_from_tokens(dendropy, toks, rooted=case["kind"] == "ultrametric")
     n = len(leaves_lr(tree))
     ctx.case(["recon", toks, case["kind"], case.get("csv"), case.get("weighted", True)], n >= 4, sample=case,
-             kind="recon-" + case["kind"] + ("-neartie" if case.get("neartie") else ""))
+             kind="recon-" + case["kind"] + ("-neartie" if case.get("neartie") else "") + ("-traced" if case.get("trace") else ""))
     pdm = tree.phylogenetic_distance_matrix()
     weighted = case.get("weighted", True)
     src = tree
@@ -661,7 +761,7 @@ def case_matrix(ctx, dendropy, case, pending):
     labels = case["labels"]
     rows = case["matrix"]
     n = len(labels)
-    ctx.case(["matrix", labels, rows], n >= 4, sample=case, kind="matrix")
+    ctx.case(["matrix", labels, rows], n >= 4, sample=case, kind="matrix-traced" if case.get("trace") else "matrix")
     text = "," + ",".join(labels) + "\n" + "".join(
         labels[i] + "," + ",".join(repr(float(Fraction(x))) for x in rows[i]) + "\n" for i in range(n))
     pdm = dendropy.PhylogeneticDistanceMatrix.from_csv(io.StringIO(text))
@@ -723,6 +823,9 @@ def flush(ctx, pending):
                 ok = set(mv) == set(got) and all((Fraction(got[k]) == mv[k]) if how == "pairs-exact" else close(got[k], mv[k]) for k in got)
             except ValueError:
                 ok = False
+        elif how == "trace":
+            shown = trace_show(got)
+            ok = trace_equal(got, m)
         elif how in ("flat", "flat-exact"):
             shown = flat_show(got)
             ok = flat_equal(got, m.split(), how == "flat-exact")
@@ -862,7 +965,8 @@ def gen_recon(ctx, dendropy, rng, max_leaves):
     toks, _ = tu.encode_tree(tree)
     neartie = rng.random() < 0.4
     toks = positive_lengths(rng, toks, kind == "ultrametric", neartie)
-    case = {"op": "recon", "tree": toks, "kind": kind, "csv": rng.random() < 0.3, "weighted": True, "neartie": neartie}
+    case = {"op": "recon", "tree": toks, "kind": kind, "csv": rng.random() < 0.3, "weighted": True, "neartie": neartie,
+            "trace": rng.random() < 0.5}
     if kind == "additive" and rng.random() < 0.15:
         case["weighted"] = False
     return case
@@ -878,7 +982,7 @@ def gen_matrix(ctx, rng, max_n):
         for j in range(i + 1, n):
             v = Fraction(rng.randint(1, 4 if few else 40), 2 ** rng.randint(0, 0 if few else 2))
             rows[i][j] = rows[j][i] = fr(v)
-    return {"op": "matrix", "labels": labels, "matrix": rows}
+    return {"op": "matrix", "labels": labels, "matrix": rows, "trace": rng.random() < 0.5}
 
 
 def one_case(ctx, dendropy, case, pending):
@@ -972,7 +1076,8 @@ def exhaustive(ctx, dendropy, rng, pending):
                 for kind in ("additive", "ultrametric"):
                     for neartie in (False, True):
                         one_case(ctx, dendropy, {"op": "recon", "tree": positive_lengths(rng, toks, kind == "ultrametric", neartie),
-                                                 "kind": kind, "csv": False, "weighted": True, "neartie": neartie}, pending)
+                                                 "kind": kind, "csv": False, "weighted": True, "neartie": neartie,
+                                                 "trace": not neartie}, pending)
                         count += 1
             count += 1
             if len(pending) >= 2000:
@@ -980,6 +1085,30 @@ def exhaustive(ctx, dendropy, rng, pending):
     flush(ctx, pending)
     ctx.extra["exhaustive_small_scope"] = ("all rose-tree shapes <= 6 leaves: pdm, Tree.mrca for every taxon subset (current / refreshed), "
                                            "NJ and UPGMA on positive / ultrametric lengths: %d cases" % count)
+
+
+def search(ctx, broken):
+    """obligations broke (the NJ / UPGMA kernels no longer regenerate, a bridge or property theorem no longer builds) or implementation
+    and model disagreed: hunt for an input on which the real nj_tree / upgma_tree contradicts the statement — additive and ultrametric
+    inputs of every size from 2 taxa up (both branches of the branch-length formula, ties, near-ties), traced, judged by the oracle"""
+    if ctx.failures:
+        return
+    dendropy = __import__("dendropy")
+    rng = ctx.rng
+    pending = []
+    ctx.budget_s = (ctx.budget_s or 0) + ctx.pick(12, 120)
+    n = 0
+    for k in range(ctx.pick(2500, 40000)):
+        if ctx.out_of_time() or ctx.failures:
+            break
+        case = gen_recon(ctx, dendropy, rng, rng.choice([2, 3, 4, 5, 6, 8, 12]))
+        case["trace"] = True
+        one_case(ctx, dendropy, case, pending)
+        n += 1
+        if len(pending) >= 300:
+            flush(ctx, pending)
+    flush(ctx, pending)
+    ctx.note("targeted search after broken obligations / disagreements: %d NJ/UPGMA reconstruction cases" % n)
 
 
 def replay(ctx, rec):
